@@ -37,7 +37,7 @@ func execSt(args []Tok) string {
 
 func stValues(rng *rand.Rand, n int) []float64 {
 	// spread 1, offsets from 0 to 1e9 times the spread, sometimes ties
-	offs := []float64{0, 0, 1, 100, 1e4, 1e6, 1e9, -1e9, -3e5}
+	offs := []float64{0, 0, 1, 100, 1e4, 1e6, 1e9, -1e9, -3e5, 1e12, 17592186044416, -1e14}
 	off := offs[rng.Intn(len(offs))]
 	scale := math.Ldexp(1, rng.Intn(21)-10)
 	bits := 3 + rng.Intn(20)
